@@ -5,6 +5,7 @@
 package c11x
 
 import (
+	"context"
 	"encoding/binary"
 	"encoding/json"
 	"fmt"
@@ -12,14 +13,19 @@ import (
 	"net"
 	"net/netip"
 	"sort"
+	"sync/atomic"
 	"time"
 
 	"github.com/jech/storrent/bitmap"
 	"github.com/jech/storrent/hash"
+	"github.com/jech/storrent/known"
 	"github.com/jech/storrent/peer"
 	"github.com/jech/storrent/pex"
 	"github.com/jech/storrent/protocol"
+	"github.com/jech/storrent/tor"
 	"github.com/jech/storrent/tor/piece"
+
+	"verifharness/internal/mktor"
 )
 
 type AdvMsg struct {
@@ -72,6 +78,15 @@ type Case struct {
 	} `json:"exp"`
 	NBlocks int64 `json:"nblocks"`
 	Tail    int64 `json:"tail"`
+	// mailbox
+	Cap int      `json:"cap"`
+	Mb  []MbStep `json:"mb"`
+}
+
+type MbStep struct {
+	A    string `json:"a"`
+	NBox int    `json:"nbox"`
+	NBl  int    `json:"nbl"`
 }
 
 type Viol struct {
@@ -508,6 +523,183 @@ func runBlockName(c *Case, out *Out) {
 	}
 }
 
+// runMailbox: spec/Mailbox.tla.  A real peer.Run talks to a scripted remote over
+// net.Pipe; the harness owns the torrent's mailbox (a channel of the capacity
+// the specification says), is the other senders, and is the torrent's loop: the
+// events it takes are handled, in the order taken, by a real torrent that is
+// stepped.  The peer's goroutine is held at the yield point of writeEvent, so
+// that "inside a handler, about to hand over an event" is a state of its own.
+// The peer's events are Have(0), DontHave(0), Have(1), DontHave(1), then the two
+// of its exit path.  C09: when it has left, no piece is counted as available.
+func runMailbox(c *Case, out *Out) {
+	seed := uint64(c.ID) + 401
+	t, err := mktor.New(mktor.Spec{Name: "mb", PieceLen: 32768, Length: 4*32768 - 100, Seed: seed}, "")
+	if err != nil {
+		out.Note = err.Error()
+		return
+	}
+	tor.VerifInit(t, seed)
+	defer tor.VerifStop(t)
+	a, b := net.Pipe()
+	id := make([]byte, 20)
+	id[0] = 5
+	p := peer.New("", a, netip.MustParseAddrPort("192.0.2.55:6881"), false,
+		protocol.HandshakeResult{Hash: t.Hash, Id: hash.Hash(id), Fast: true, Extended: true})
+	p.Pieces = &t.Pieces
+	mailbox := make(chan peer.TorEvent, c.Cap)
+	torDone := make(chan struct{})
+	var armed atomic.Bool
+	arrived := make(chan struct{}, 4)
+	release := make(chan struct{})
+	peer.VerifYield = func(point string) {
+		if point == "writeEvent" && armed.Load() {
+			arrived <- struct{}{}
+			<-release
+		}
+	}
+	defer func() { peer.VerifYield = nil }()
+	t.VerifAddPeer(p)
+	done := make(chan struct{})
+	go func() {
+		peer.Run(p, mailbox, torDone, t.Info, t.Pieces.Bitmap(), nil)
+		close(done)
+	}()
+	go io.Copy(io.Discard, b)
+	defer func() {
+		armed.Store(false)
+		select {
+		case release <- struct{}{}:
+		default:
+		}
+		b.Close()
+		close(torDone)
+		select {
+		case <-done:
+		case <-time.After(5 * time.Second):
+		}
+	}()
+	ctx := context.Background()
+	filler := peer.TorAddKnown{Addr: netip.MustParseAddrPort("192.0.2.250:9"), Kind: known.Tracker}
+	gone := false
+	var order []string
+	feed := func(e peer.TorEvent) {
+		switch x := e.(type) {
+		case peer.TorAddKnown:
+			if x.Addr == filler.Addr {
+				return
+			}
+		case peer.TorPeerHave:
+			order = append(order, fmt.Sprintf("have(%d,%v)", x.Index, x.Have))
+		case peer.TorPeerGoaway:
+			gone = true
+		}
+		tor.VerifHandleEvent(ctx, t, e)
+	}
+	// start-up: whatever the peer says about itself is handled first
+	for quiet := 0; quiet < 3; {
+		select {
+		case e := <-mailbox:
+			feed(e)
+			quiet = 0
+		case <-time.After(40 * time.Millisecond):
+			quiet++
+		}
+	}
+	armed.Store(true)
+	nonconf := func(f string, a ...any) {
+		if len(out.Nonconf) < 3 {
+			out.Nonconf = append(out.Nonconf, fmt.Sprintf(f, a...))
+		}
+	}
+	waitLen := func(k int, st MbStep) {
+		for n := 0; n < 400; n++ {
+			if len(mailbox) == st.NBox {
+				return
+			}
+			time.Sleep(5 * time.Millisecond)
+		}
+		nonconf("step %d (%s): the mailbox holds %d events, the specification says %d", k, st.A, len(mailbox), st.NBox)
+	}
+	frame := func(k int) []byte {
+		piece := uint32((k - 1) / 2)
+		if k%2 == 1 {
+			return []byte{0, 0, 0, 5, 4, byte(piece >> 24), byte(piece >> 16), byte(piece >> 8), byte(piece)}
+		}
+		return []byte{0, 0, 0, 6, 20, protocol.ExtDontHave, byte(piece >> 24), byte(piece >> 16), byte(piece >> 8), byte(piece)}
+	}
+	emitted, busy, closed := 0, false, false
+	for k, st := range c.Mb {
+		switch st.A {
+		case "BeginEmit":
+			b.SetWriteDeadline(time.Now().Add(3 * time.Second))
+			if _, err := b.Write(frame(emitted + 1)); err != nil {
+				out.Note = fmt.Sprintf("step %d: cannot write to the peer: %v", k, err)
+				return
+			}
+			select {
+			case <-arrived:
+				busy = true
+			case <-time.After(3 * time.Second):
+				out.Note = fmt.Sprintf("step %d: the peer did not reach writeEvent for event %d", k, emitted+1)
+				return
+			}
+		case "DoEmit":
+			if !busy {
+				nonconf("step %d: DoEmit with an idle peer", k)
+				continue
+			}
+			release <- struct{}{}
+			busy = false
+			emitted++
+			waitLen(k, st)
+		case "OtherSend":
+			select {
+			case mailbox <- filler:
+			default:
+				nonconf("step %d: no room in the mailbox for another sender", k)
+			}
+			waitLen(k, st)
+		case "Take":
+			select {
+			case e := <-mailbox:
+				feed(e)
+			case <-time.After(2 * time.Second):
+				nonconf("step %d: nothing to take", k)
+			}
+			waitLen(k, st)
+		case "Close":
+			armed.Store(false)
+			b.Close()
+			closed = true
+			waitLen(k, st)
+		}
+	}
+	// the rest of the story: the peer leaves, the torrent handles everything that is left
+	armed.Store(false)
+	if busy {
+		release <- struct{}{}
+	}
+	if !closed {
+		b.Close()
+	}
+	for !gone {
+		select {
+		case e := <-mailbox:
+			feed(e)
+		case <-time.After(5 * time.Second):
+			out.Note = "the peer's farewell never arrived"
+			return
+		}
+	}
+	for n, av := range t.VerifAvailable() {
+		if av != 0 {
+			out.Violations = append(out.Violations, Viol{"C09", "availability-mismatch",
+				fmt.Sprintf("the only peer has left and its events have been handled, yet available[%d] = %d; its advertisements and retractions reached the torrent as %v", n, av, order)})
+			break
+		}
+	}
+}
+
 // Handle is the worker-side entry point.
 func Handle(in []byte) any {
 	var c Case
@@ -522,6 +714,8 @@ func Handle(in []byte) any {
 		runPex(&c, out)
 	case "blockname":
 		runBlockName(&c, out)
+	case "mailbox":
+		runMailbox(&c, out)
 	default:
 		out.Note = "unknown kind"
 	}
